@@ -268,6 +268,8 @@ def cases(tier, seed):
                 add('temp', u, v, x)
                 if u != v:
                     add('temp-rt', u, v, x)
+            # the same conversion element-wise on an array, asked twice (the answer must not depend on an earlier query)
+            add('temp-array', u, v, tuple(x for x in T_VALUES_ if not (x < 0 and t_split(u)[1] in ('K', 'degR'))))
     # level <-> linear
     def lspell(b):
         return [b] + [p + b for p in _PREF[b]]
@@ -278,6 +280,8 @@ def cases(tier, seed):
     for lb in ('B', 'Np'):
         pairs += [(lu, vu) for lu in lspell(lb) for vu in ('PR', 'AR')]
     for lu, vu in pairs:
+        add('log-lin-array', lu, vu, tuple(LEVEL_VALUES_))
+        add('log-lin-array', vu, lu, tuple(LIN_VALUES_))
         for x in LEVEL_VALUES_:
             add('log-lin', lu, vu, x)
             add('log-lin-rt', lu, vu, x)
@@ -348,6 +352,15 @@ def _value(x, u, v):
     return Quantity(x, u).value(v)
 
 
+def _array_twice(xs, u, v):
+    import numpy as np
+    from scinumtools.units import Quantity
+    q = Quantity(np.array(xs, dtype=float), u)
+    a = np.array(q.value(v), dtype=float).copy()
+    b = np.array(q.value(v), dtype=float).copy()
+    return a.tolist(), b.tolist(), np.array(q.value(), dtype=float).tolist()
+
+
 def _there_and_back(x, u, v):
     from scinumtools.units import Quantity
     q = Quantity(x, u)
@@ -402,6 +415,29 @@ def check_case(c):
             rec = failure(sub, list(c), exp, list(o), _tags(sub, u, v), "raises:" + o[1] + ":" + _short(o[2]))
         elif not _close(o[1], exp, *tol):
             rec = failure(sub, list(c), exp, o[1], _tags(sub, u, v), "wrong-value:rel~" + _relclass(o[1], exp, t_scale(v)))
+    elif sub in ('temp-array', 'log-lin-array'):
+        _, u, v, xs = c
+        xs = list(xs)
+        if sub == 'temp-array':
+            exp = [float(t_from_kelvin(t_to_kelvin(x, u), v)) for x in xs]
+            tols = [(REL, REL * t_scale(v))] * len(xs)
+        else:
+            uu, vv = u, v
+            to_level = l_split(vv)[1] in LEVELS or l_split(vv)[1] in ('B', 'Np')
+            exp = [linear_to_level(x, uu, vv) if to_level else level_to_linear(x, uu, vv) for x in xs]
+            pv = 10.0 ** SI[l_split(vv)[0]]
+            tols = [(REL, 1e-9 / pv if to_level else 0.0)] * len(xs)
+        o = outcome(_array_twice, xs, u, v)
+        if o[0] == 'err':
+            rec = failure(sub, list(c), exp, list(o), _tags(sub, u, v) + ['array'], "raises:" + o[1] + ":" + _short(o[2]))
+        else:
+            a, b, after = o[1]
+            if len(a) != len(xs) or not all(_close(g, e, *t) for g, e, t in zip(a, exp, tols)):
+                rec = failure(sub, list(c), exp, a, _tags(sub, u, v) + ['array'], "wrong-value:array")
+            elif b != a:
+                rec = failure(sub, list(c), a, b, _tags(sub, u, v) + ['array'], "second-query-differs")
+            elif after != [float(x) for x in xs]:
+                rec = failure(sub, list(c), xs, after, _tags(sub, u, v) + ['array'], "source-array-changed-by-query")
     elif sub == 'temp-rt':
         _, u, v, x = c
         o = outcome(_there_and_back, x, u, v)
